@@ -259,6 +259,7 @@ def native_gym_adapter_replay(model):
     def initial_and_own_obs(g, obs):
         y = np.asarray(g.state.env_state.y, np.float64)
         return int(g.state.step_count) == 0 and float(g.state.env_state.t) == 0.0 and bool(np.all(np.abs(y) <= 0.05 + 1e-6)) and np.allclose(np.asarray(obs, np.float64), y, atol=1e-7)
+    fresh_obs = {}
     for n in (4, 6):
         for seq in itertools.product(ops, repeat=n):
             if n == 6 and seq.count("step") < 4:
@@ -276,9 +277,16 @@ def native_gym_adapter_replay(model):
                     ok = ok and bool(trunc) == (prev_count + 1 >= 3) and float(rew) == 1.0
                     got = dict(obs=np.asarray(obs).tolist(), reward=float(rew), terminated=bool(term), truncated=bool(trunc))
                 else:
-                    obs, _ = g.reset(seed=5) if op == "seed" else g.reset()
+                    sd_ = (5 if t % 2 else 0)
+                    obs, _ = g.reset(seed=sd_) if op == "seed" else g.reset()
                     ok = initial_and_own_obs(g, obs)
                     got = dict(obs=np.asarray(obs).tolist())
+                    if op == "seed":   # a seeded reset determines the episode: same observation as a fresh adapter seeded alike
+                        if sd_ not in fresh_obs:
+                            fresh_obs[sd_] = np.asarray(G.LeraxToGymEnv(env).reset(seed=sd_)[0])
+                        ok = ok and np.array_equal(np.asarray(obs), fresh_obs[sd_])
+                        got["fresh_adapter_same_seed_obs"] = fresh_obs[sd_].tolist()
+                        got["seed"] = sd_
                 if not ok:
                     return dict(reproduced=True, route="R1 (real LeraxToGymEnv over TimeLimit(CartPole(), 3); the property's clauses checked on the adapter's own state after every operation)",
                                 inputs=dict(operations=list(seq[:t + 1]), first_reset_seed=1),
@@ -354,6 +362,28 @@ def unit_gym_adapter(S):
     goal = sand(kit.tree_eq(st2, spec[0]), kit.tree_eq(out, tuple(spec[1:])))
     S.prove("LeraxToGymEnv.reset/delegates", ctx, goal, holes={hc: cands}, function=fn_reset, replay=native_gym_adapter_replay,
             what="adapter's reset stores and returns env.reset(key=k), k split from self.key")
+    # reset(seed=s): the key is re-seeded first, so state, key and returned pair are functions of s alone - nothing of the adapter's previous key survives (every s, 0 included)
+    from lvc.vc import term_contains
+    for seed in (0, 5):
+        def do_reset_seed(env, key, seed=seed):
+            with extract.patched(*patches):
+                g = G.LeraxToGymEnv(env)
+                g.key = key
+                out = g.reset(seed=seed)
+                return g.state, g.key, out
+        ctx = Ctx()
+        env_in = sym(ctx, "env", base)
+        k_in, kc = kit.key_input("selfkey")
+        st3, key3, out3 = run(ctx, do_reset_seed, env_in, k_in)
+        dep = []
+        for l in kit.leaves((st3, key3, out3)):
+            for ix in l.indices():
+                t = l.at(ix)
+                if ir.is_z3(t) and term_contains(t, kc):
+                    dep.append(str(l))
+                    break
+        S.fact(f"LeraxToGymEnv.reset[seed={seed}]/independent-of-previous-key", not dep, function=fn_reset, replay=native_gym_adapter_replay,
+               what="after reset(seed=s) the adapter's state, key and the returned observation do not depend on the key it held before: the episode is determined by s", detail=dep[:4])
 
     # frame: the adapter is a stateful object whose abstract view is (state, key); the two obligations above describe step / reset as functions of that view, which is the whole story
     # only if step / reset write nothing else.  Another written attribute is hidden state outside the contract: decided natively over operation sequences (a reproduced divergence from
